@@ -25,7 +25,7 @@ EDITS = ["label-add", "label-remove", "label-rename", "annot-remove", "annot-alt
          "section-add", "section-remove", "section-rename", "strip-all-blank", "strip-all-labels", "strip-all-sections", "format-remove", "format-alter", "format-add", "indent", "bytes-content", "bytes-length", "cont-add", "cont-remove"]
 FLOORS = {f"edit={e}": 0.02 for e in EDITS}
 FLOORS.update({"kinds>=2": 0.4, "edit=format-add": 0.004})
-NAMES = ["main", "_start", "f@plt", ".text", "foo+0x10", "_ZN3foo3barEv", "foo(int)", "operator new(unsigned long)", "x", "L1", "data_16", "sym.with.dots"]
+NAMES = ["see file format notes", "main", "_start", "f@plt", ".text", "foo+0x10", "_ZN3foo3barEv", "foo(int)", "operator new(unsigned long)", "x", "L1", "data_16", "sym.with.dots"]
 INST = re.compile(r"^(\s*)([0-9a-f]+):\t((?:[0-9a-f]{2} )+)(\s*)\t(\S.*)$")
 
 
@@ -209,6 +209,15 @@ def evaluate(case):
     for rule in rules:
         rp = sc.write("c16_rule.yaml", jasm_io.rule_text(jasm_io.make_doc(rule)))
         modes = [("str", "first", False)] if first else []
+        if first:
+            # the stream again with the address-range observer installed (same option on both sides)
+            rp2 = sc.write("c16_rule_range.yaml", jasm_io.rule_text(jasm_io.make_doc(rule, config={"valid_addr_range": {"min": "0x1000", "max": "0x2000"}})))
+            a = jasm_io.match_files(rp2, p0, mode="str")
+            b = jasm_io.match_files(rp2, p1, mode="str")
+            ev.subcases += 1
+            if "inconclusive" not in (a[0], b[0]) and a[:2] != b[:2]:
+                ev.dev("result-changed-by-presentation", mode="str", with_config="valid_addr_range", edits=applied, **_first_diff(a, b))
+                break
         first = False
         for mode, search, only in modes + [("list", "all", False)]:
             a = jasm_io.match_files(rp, p0, mode=mode, search=search, only_addr=only)
